@@ -66,7 +66,7 @@ func TestSecretConfig(t *testing.T) {
 				row.Source = "error"
 			case c.JWTSecret == cliSecrets[cli] && cli != "absent":
 				row.Source = "cli"
-			case file == "valid" && c.JWTSecret == "fedcba9876543210-from-file":
+			case file == "valid" && c.JWTSecret == "fedcba9876543210-from-file", file == "short" && c.JWTSecret == "short":
 				row.Source = "file"
 			default:
 				row.Source = "generated"
